@@ -257,6 +257,13 @@ def corpus():
         # the example of Props/C15.v (C15_nonvacuous)
         (["PSS:" + cps("foo !bar Baz$")], [["Foo-Baz"], ["foobar"]]),
         (["PSS:" + cps("foo"), "PSS:" + cps("!bar")], [["Foo-Baz", "foobar"], ["Foo-Baz"]]),
+        # smart case over lower-case letters that still have a case folding (U+017F long s, U+00B5 micro, U+03C2 final
+        # sigma): every atom kind, the indices variant reports one index per needle character (round 6, C02-m12)
+        (["PSN:" + cps("^ma\u017fs")], [["ma\u017fs"], ["mass"], ["MASS"], ["ma\u017fs more"]]),
+        (["PSN:" + cps("ma\u017fs$")], [["ma\u017fs"], ["mass"], ["a ma\u017fs"]]),
+        (["PSN:" + cps("^\u00b5m$")], [["\u00b5m"], ["\u03bcm"], ["\u039cM"]]),
+        (["PSS:" + cps("'\u03c3\u03c2")], [["\u03c3\u03c2"], ["\u03a3\u03a3"], ["x\u03c3\u03c2y"]]),
+        (["PSN:" + cps("\u017ft")], [["\u017ftra\u00dfe"], ["strasse"], ["\u017ft"]]),
         # ties: equal scores must keep the input order
         (["PSS:" + cps("a")], [["a"], ["ba"], ["a"], ["ab"], ["ba"], ["a"]]),
         # long lists with many ties in non-sorted order (sorting more than 20 elements takes a different
